@@ -230,6 +230,12 @@ func (c *Ctx) runInverseOrder(rule string, pkgs []*packages.Package) {
 									okSite = true
 								} else if ci, cl, _, ok := ivLin(ia.Index, idx, ia.X, 0); ok && ci == -1 && cl == 1 {
 									okSite = true
+								} else if ds, ok1 := indexDirection(ia.Index, 0); ok1 && ds != 0 {
+									if dm, ok2 := indexDirection(idx, 0); ok2 && dm*ds < 0 {
+										okSite = true
+									} else {
+										why = "the inverse of member i is stored at a position that does not run against i"
+									}
 								} else {
 									why = "the inverse of member i is stored at a position that does not run against i"
 								}
@@ -265,31 +271,71 @@ func memberIndex(v ssa.Value, recv ssa.Value) ssa.Value {
 	return nil
 }
 
-// indexRunsDown: the index is a loop phi (or phi-1) whose back edge subtracts.
+// indexRunsDown: the index decreases from one iteration to the next.
 func indexRunsDown(idx ssa.Value) bool {
-	var phi *ssa.Phi
-	switch x := idx.(type) {
+	d, ok := indexDirection(idx, 0)
+	return ok && d < 0
+}
+
+// indexDirection: the sign of the change of v per iteration - a loop phi (or
+// the incremented value of a range loop) moves by its constant step, values
+// that are not built from a phi do not move, sums and differences combine.
+func indexDirection(v ssa.Value, depth int) (int, bool) {
+	if depth > 6 {
+		return 0, false
+	}
+	switch x := v.(type) {
 	case *ssa.Phi:
-		phi = x
-	case *ssa.BinOp:
-		if p, ok := x.X.(*ssa.Phi); ok {
-			phi = p
-		}
-	}
-	if phi == nil {
-		return false
-	}
-	down := false
-	for _, e := range phi.Edges {
-		if bin, ok := e.(*ssa.BinOp); ok && bin.X == ssa.Value(phi) {
-			if k, isC := constInt(bin.Y); isC {
-				if bin.Op == token.SUB && k > 0 || bin.Op == token.ADD && k < 0 {
-					down = true
-				} else {
-					return false
-				}
+		dir, seen := 0, false
+		for _, e := range x.Edges {
+			bin, ok := e.(*ssa.BinOp)
+			if !ok || bin.X != ssa.Value(x) {
+				continue
 			}
+			k, isC := constInt(bin.Y)
+			if !isC || k == 0 {
+				return 0, false
+			}
+			d := 1
+			if bin.Op == token.SUB && k > 0 || bin.Op == token.ADD && k < 0 {
+				d = -1
+			} else if !(bin.Op == token.ADD && k > 0 || bin.Op == token.SUB && k < 0) {
+				return 0, false
+			}
+			if seen && d != dir {
+				return 0, false
+			}
+			dir, seen = d, true
 		}
+		return dir, seen
+	case *ssa.BinOp:
+		a, ok1 := indexDirection(x.X, depth+1)
+		b, ok2 := indexDirection(x.Y, depth+1)
+		if !ok1 || !ok2 {
+			return 0, false
+		}
+		switch x.Op {
+		case token.ADD:
+			if a*b < 0 {
+				return 0, false
+			}
+			if a != 0 {
+				return a, true
+			}
+			return b, true
+		case token.SUB:
+			if a*b > 0 {
+				return 0, false
+			}
+			if a != 0 {
+				return a, true
+			}
+			return -b, true
+		}
+		return 0, false
+	case *ssa.Convert:
+		return indexDirection(x.X, depth+1)
 	}
-	return down
+	// constants, lengths, values computed before the loop
+	return 0, true
 }
